@@ -36,6 +36,8 @@ type c02Shape struct{ lit, json string }
 
 var c02Shapes = []c02Shape{
 	{`0`, `0`}, {`1`, `1`}, {`-1`, `-1`}, {`9223372036854775807`, `9223372036854775807`},
+	// distinct integers beyond 2^53 that round to the same float64
+	{`9007199254740992`, `9007199254740992`}, {`9007199254740993`, `9007199254740993`},
 	{`1.5`, `1.5`}, {`2.0`, `2.0`},
 	{`""`, `""`}, {`"a"`, `"a"`}, {`"b"`, `"b"`}, {`"10"`, `"10"`},
 	{`true`, `true`}, {`false`, `false`}, {`null`, `null`},
@@ -405,6 +407,21 @@ func c02L4(level string, names []string, maxArity int, emit c02Emit) {
 			for _, b := range []string{`","`, `"o"`, `"l"`, `1`, `0`} {
 				for _, c := range []string{`"-"`, `3`, `0`, `-1`, `100`, `null`} {
 					a, b, c := a, b, c
+					emit(level, "L4-arity3", func() (string, int, []c02Req) {
+						return c02Route("  > " + name + "(" + a + ", " + b + ", " + c + ")"), 0, c02Get()
+					})
+				}
+			}
+		}
+		// a text whose length in characters and in bytes differ x every index up to past the byte length
+		for _, a := range []string{`"日本語"`, `"aé"`} {
+			for _, b := range []string{"0", "1", "2", "3", "4"} {
+				a, b := a, b
+				emit(level, "L4-arity2", func() (string, int, []c02Req) {
+					return c02Route("  > " + name + "(" + a + ", " + b + ")"), 0, c02Get()
+				})
+				for _, c := range []string{"0", "1", "2", "3", "4", "5", "9", "10"} {
+					c := c
 					emit(level, "L4-arity3", func() (string, int, []c02Req) {
 						return c02Route("  > " + name + "(" + a + ", " + b + ", " + c + ")"), 0, c02Get()
 					})
@@ -894,4 +911,5 @@ func c02Enumerate(thorough bool, builtins []string, emit c02Emit) {
 		c02L8("http", false, 2, nil, emit)
 	}
 	c02BodyMatrix(emit, thorough)
+	c02L9(emit)
 }
